@@ -8,6 +8,7 @@ from __future__ import annotations
 
 import asyncio
 import heapq
+import sys
 import threading
 from asyncio import events
 
@@ -78,6 +79,19 @@ class SimLoop(asyncio.BaseEventLoop):
         return self.call_soon(callback, *args, context=context)
 
     # -- timers ----------------------------------------------------------------------------
+    def call_at(self, when, callback, *args, context=None):
+        # side channel for the C12 delay oracle: the duration the engine's retry loop asked asyncio.sleep for
+        # (frames: call_at <- call_later <- sleep <- __execute_node).  Not part of the event log.
+        f = sys._getframe(1)
+        for _ in range(4):
+            if f is None:
+                break
+            if f.f_code.co_name == '__execute_node':
+                self._sim.retry_timers.append((self._sim.cur_run(), f.f_locals.get('node_id'), when - self._vtime))
+                break
+            f = f.f_back
+        return super().call_at(when, callback, *args, context=context)
+
     def _drop_cancelled_timers(self) -> None:
         sched = self._scheduled
         while sched and sched[0]._cancelled:
